@@ -265,7 +265,7 @@ def ownership(ctx, rows):
         go('AccSignal', 'float64', [b, 'caller_write'], tag='pairs')
     ctx.flush()
     # random histories
-    n_random, maxlen = (500, 10) if quick else (6000, 25)
+    n_random, maxlen = (1500, 12) if quick else (12000, 25)
     srows = [r for r in O.SIGNAL_METHODS if r in rows]
     for i in range(n_random):
         cls = 'Signal' if i % 6 == 5 else 'AccSignal'
@@ -352,7 +352,7 @@ def purity(ctx):
     rng = ctx.rng
     P.build()
     pub = P.public_functions()
-    reps = 3 if ctx.tier == 'quick' else 25
+    reps = 5 if ctx.tier == 'quick' else 25
     exercised = set()
     for name in sorted(pub):
         if name in P.EXCLUDED:
